@@ -79,6 +79,23 @@ def ctx_variants(params: List[Dict[str, Any]], flavour_async: bool) -> Iterator[
         cand = renamed + [{'name': 'ctx', 'kind': 'KO', 'ctx': True}] if not any(p['kind'] == 'VK' for p in params) else None
         if cand and hm.valid_order(cand):
             yield {'params': cand, 'flavour': fn, 'ctx': 'name'}
+    # client parameters named like things the library itself handles internally (any name is the application's to choose)
+    named = [p for p in params if p['kind'] in ('PK', 'KO')]
+    if named:
+        pick = INTERNAL_LOOKING[(len(params) * 7 + sum(len(p['name']) for p in params) + ('default' in named[0])) % len(INTERNAL_LOOKING)]
+        first = True
+        cand2 = []
+        for p in params:
+            if first and p['kind'] in ('PK', 'KO'):
+                cand2.append({**p, 'name': pick})
+                first = False
+            else:
+                cand2.append(p)
+        if hm.valid_order(cand2):
+            yield {'params': cand2, 'flavour': fn, 'ctx': 'none'}
+
+
+INTERNAL_LOOKING = ['signature', 'method', 'params', 'request', 'cls', 'kwargs', 'exclude', 'name', 'validator', 'func', 'handler', 'error']
 
 
 def signatures(n: int) -> Iterator[List[Dict[str, Any]]]:
@@ -156,7 +173,7 @@ class C04(Check):
         "at each valid positional position and as keyword-only; first positional with positional=True; class based view with and without "
         "constructor context) x dispatcher (sync: functions and views; async: coroutines and async views), crossed with params absent, all "
         "positional lists of length 0..5 and all named mappings over every subset of (parameter names + 'zz' + the context name); (b) "
-        "Hypothesis: signatures of up to 4 parameters with JSON-scalar defaults and pooled JSON values as arguments; views whose instance parameter is named 'this'; a client parameter whose name is contained in the context parameter's name; "
+        "Hypothesis: signatures of up to 4 parameters with JSON-scalar defaults and pooled JSON values as arguments; views whose instance parameter is named 'this'; a client parameter whose name is contained in the context parameter's name; client parameters named like the library's own internals (signature, method, params, request, cls, kwargs ...); "
         "(c) histories of 6..14 short-lived dispatchers each serving a freshly created function that is dropped afterwards (every step judged like a single case). Oracle: a twin function "
         "with the same signature minus the context is called with the same list/mapping: TypeError => -32602 and empty execution log; "
         "otherwise success whose result is the scripted return value and one log entry whose arguments equal the twin's locals(); the "
